@@ -175,6 +175,21 @@ var c11Families = []c11Family{
 		state0: func(par int) int64 { return 0 },
 	},
 	{
+		// patterns that come from data: over the life of a worker process far
+		// more distinct ones than any bounded cache keeps (every case brings
+		// forty new ones)
+		name:   "bulk-regexp",
+		regexp: true,
+		script: func(tag string, par int) string {
+			return fmt.Sprintf("n = 0; foreach i in 1..40 { if (match(S, \"^q%d-\" + string(i) + \"%s\")) { n = n + 1; } } return n > 0 || A > %d;", par, tag, par%3)
+		},
+		init: func(e *evalfilter.Eval, par int) {},
+		step: func(s int64, o *Obj, par int) (int64, bool, []int64) {
+			return s, o.A > par%3, nil
+		},
+		state0: func(par int) int64 { return 0 },
+	},
+	{
 		// reads only: no assignment, no local, no ++/--, no function - the
 		// kind of script an engine might be tempted to run without its lock
 		name: "read-only-foreach",
